@@ -159,6 +159,36 @@ pub fn run_prop(ctx: &Ctx, sink: &mut Sink) {
         tags.push("binary");
         sink.push(Case { req, imp, tags });
     }
+    // ---- -s with -I: the limit applies to the command after substitution; lines around the boundary
+    let ns = if ctx.thorough { 4_000 } else { 300 };
+    for _ in 0..ns {
+        let mut cmd = vec![b"cmd".to_vec()];
+        let mut occ = 0usize;
+        for _ in 0..rng.range(1, 3) {
+            let mut a = vec![];
+            for _ in 0..rng.range(1, 3) {
+                if rng.chance(2, 3) { a.extend_from_slice(b"{}"); occ += 1; } else { a.extend_from_slice(*rng.pick(&[&b"p"[..], &b"-x"[..], &b"lit"[..]])); }
+            }
+            cmd.push(a);
+        }
+        let s = rng.range(12, 90);
+        // cost of the command with every {} removed, and the line length at which the substituted command is exactly s
+        let lit: usize = cmd.iter().map(|a| a.len() + 1).sum::<usize>() - 2 * occ;
+        let l0 = if occ > 0 && s > lit { (s - lit) / occ } else { 3 };
+        let mut input = vec![];
+        for _ in 0..rng.range(1, 3) {
+            let len = (l0 + rng.below(6)).saturating_sub(3).max(1);
+            for _ in 0..len { input.push(b'a' + rng.below(26) as u8); }
+            input.push(b'\n');
+        }
+        let c = XCase { opts: vec!["I7b7d".into(), format!("s{s}")], cmd, input, script: vec![], want_sys: 0 };
+        let (req, imp) = run_inproc(ctx, &c);
+        let mut tags = tags_for(&c, &imp);
+        tags.push("s-limit");
+        tags.push("nt");
+        if imp.starts_with("st=1") { tags.push("s-limit-refused"); }
+        sink.push(Case { req, imp, tags });
+    }
     // ---- no command at all: the default command is `echo` without arguments; in replace mode nothing is
     // appended to it, so every non-empty line gives one run of a bare `echo` (an empty line of output)
     for (opts, input) in [(vec!["I7b7d".to_string()], b"a b\nc\n".to_vec()), (vec!["i".to_string()], b"one\n\ntwo words\n".to_vec()),
